@@ -121,3 +121,23 @@ theorem C01_state_replay_partial {G : Type} (step : G → List (Input × InputSt
   exact ⟨hg.cur.trans hc, hg.state⟩
 
 end Ggrs
+
+namespace Ggrs
+
+/-- **C01 in lockstep mode: timeline and state (no disconnected players).** After every
+interleaving of remote-input arrivals and lockstep `advance_frame` calls whose requests the game
+executes, the game is at the session's frame, every row of its timeline is the full row of every
+player's real input (all Confirmed), and its state is the serial replay of those rows from the
+initial state. -/
+theorem C01_lockstep_replay {G : Type} (step : G → List (Input × InputStatus) → G) (g0 : G)
+    (a b : P2P × GS G) (h0 : LWInv step g0 a.1 a.2) (hrun : LWStar step a b) :
+    ∃ gh, LkInv b.1 gh ⟨b.2.cur, b.2.R⟩ ∧ b.2.cur = b.1.sync.currentFrame ∧
+      (∀ f : Nat, (f : Int) < b.2.cur → b.2.R f = rowOf gh b.1.sync.queues.length f) ∧
+      b.2.g = replay step g0 b.2.R b.2.cur.toNat := by
+  have h := LWInv_run step g0 a b h0 hrun
+  obtain ⟨gh, hl⟩ := h.sess
+  have hc : b.2.cur = b.1.sync.currentFrame := by
+    have := hl.sess.tinv.exec; simp only [execReqs, List.foldl_nil] at this; exact this
+  exact ⟨gh, hl, hc, fun f hf => hl.timeline f (by rw [← hc]; exact hf), h.state⟩
+
+end Ggrs
